@@ -2191,6 +2191,82 @@ def reformat(program, m):
 
 
 # --------------------------------------------------------------------------
+# DEFAULTLEAK
+# --------------------------------------------------------------------------
+def defaultleak(fn):
+    """A parameter whose default is a mutable object made once, when the
+    function is defined (``aliases=dict()``, ``acc=[]``), is handed back to
+    the caller (returned / yielded, alone or in a tuple) or stored in an
+    object on a path that has not re-bound it to a fresh one: every caller
+    that relies on the default gets the *same* object, and what one of them
+    puts into it is there for all later calls."""
+    out = []
+    a = fn.args
+    pos = a.posonlyargs + a.args
+    defaults = dict(zip([x.arg for x in pos][len(pos) - len(a.defaults):],
+                        a.defaults))
+    for x, d in zip(a.kwonlyargs, a.kw_defaults):
+        if d is not None:
+            defaults[x.arg] = d
+
+    def made_once(d):
+        return isinstance(d, (ast.Dict, ast.List, ast.Set)) or (
+            isinstance(d, ast.Call) and isinstance(d.func, ast.Name) and
+            d.func.id in _MUT_CTORS)
+    mut = sorted(p_ for p_, d in defaults.items() if made_once(d))
+    if not mut:
+        return out
+    try:
+        cfg = cfg_of(fn)
+    except Exception:
+        return out
+    for p_ in mut:
+        loads, rebinds = [], []
+        for n in _own_nodes(fn):
+            if isinstance(n, ast.Name) and n.id == p_:
+                if isinstance(n.ctx, ast.Load):
+                    loads.append(n)
+                else:
+                    try:
+                        rebinds.append(cfg.node_containing(n))
+                    except Exception:
+                        rebinds = None
+                        break
+        if rebinds is None:
+            continue
+        for n in loads:
+            top = n
+            while isinstance(getattr(top, "_parent", None), (ast.Tuple,
+                                                              ast.List)):
+                top = top._parent
+            q = getattr(top, "_parent", None)
+            how = None
+            if isinstance(q, (ast.Return, ast.Yield)) and q.value is top:
+                how = "handed back to the caller"
+            elif isinstance(q, ast.Assign) and q.value is top and any(
+                    isinstance(t, (ast.Attribute, ast.Subscript))
+                    for t in q.targets):
+                how = "stored (%s)" % _txt(q.targets[0], 30)
+            if how is None:
+                continue
+            try:
+                node = cfg.node_containing(n)
+            except Exception:
+                continue
+            if node is cfg.entry or cfg.reaches(cfg.entry, node,
+                                                avoid=rebinds):
+                out.append((n, "%s is %s at line %d on a path that has not "
+                            "replaced it by a fresh object: when the caller "
+                            "leaves it out, that is the one %s made when "
+                            "%s was defined - shared by all such calls, so "
+                            "what a caller puts into the result shows up "
+                            "in later calls" % (
+                                p_, how, n.lineno, _txt(defaults[p_], 20),
+                                fn.name)))
+    return out
+
+
+# --------------------------------------------------------------------------
 # SHALLOWCACHE
 # --------------------------------------------------------------------------
 def _mutable_attr_classes(m):
@@ -2465,6 +2541,7 @@ def findings(program, modules):
                             ("STALEDEP", lambda d=d: staledep(d)),
                             ("MEMOKEY", lambda d=d: memokey(d)),
                             ("PACKKEY", lambda d=d: packkey(d)),
+                            ("DEFAULTLEAK", lambda d=d: defaultleak(d)),
                             ("SHALLOWCACHE", lambda d=d: shallowcache(
                                 program, m, d)),
                             ("AXISORDER", lambda d=d: axisorder(d))):
@@ -2477,7 +2554,8 @@ _SELFTEST = []
 KINDS = ("UNDEF", "SELFATTR", "CALLSIG", "EXHAUST", "ITERMUT", "LATEBIND",
          "INTDIV", "SHADOW", "SWALLOW", "UNBOUND", "CACHEDMUT", "SNAPSHOT",
          "FINALLYLOST", "STALEDEP", "MEMOKEY", "SHALLOWCACHE",
-         "AXISORDER", "PACKKEY", "REFORMAT")
+         "AXISORDER", "PACKKEY", "REFORMAT",
+         "DEFAULTLEAK")
 
 
 def selftest():
